@@ -100,3 +100,10 @@ Definition holds_fir (c : fcase) : bool :=
        | Some d => if Nat.ltb ord (f_ilen c) then list_eqb cq_eqb d [h] else true
        end
   end.
+
+(* ---- nested cascades / parallel banks ---- *)
+Record tcase := TC { t_e : @ftree CQ; t_u : CQ; t_obs : oresp }.
+Definition corr_tree (c : tcase) : bool :=
+  oresp_eqb (t_obs c) (oresp_of (tree_fr CQ_ops CQ_cx (t_e c) (t_u c))).
+Definition holds_tree (c : tcase) : bool :=
+  oresp_eqb (t_obs c) (oresp_of (tree_spec CQ_ops CQ_cx (t_e c) (t_u c))).
